@@ -52,7 +52,13 @@ def matrix_table():
             continue
         meta = json.load(open(os.path.join(d, 'meta.json')))
         det = json.load(open(os.path.join(d, 'detect.json'))) if os.path.exists(os.path.join(d, 'detect.json')) else {}
-        q = det.get('quick', {})
+        q = {}
+        for slot, res in det.items():
+            if slot.startswith('quick') and isinstance(res, dict):
+                for p_, r_ in res.items():
+                    # the full-budget run of a check wins over a reduced-budget one
+                    if p_ not in q or slot == 'quick':
+                        q[p_] = r_
         fired = sorted(p for p, r in q.items() if r.get('exit') == 1)
         ownp = meta['property']
         total += 1
